@@ -124,11 +124,13 @@ static struct reb_treecell *reb_tree_add_particle_to_cell(struct reb_simulation*
         }
 		node->oct[o1] = reb_tree_add_particle_to_cell(r, node->oct[o1], node->pt, node, o1); 
 		node->oct[o2] = reb_tree_add_particle_to_cell(r, node->oct[o2], pt, node, o2);
-		node->pt = -2;
+		node->pt = (particles[pt].c != NULL) ? -2 : -1; // -1 if the new particle was refused further down (see reb_simulation_add)
 	}else{ // It's not a leaf
-		node->pt--;
 		int o = reb_reb_tree_get_octant_for_particle_in_cell(particles[pt], node);
 		node->oct[o] = reb_tree_add_particle_to_cell(r, node->oct[o], pt, node, o);
+		if (particles[pt].c != NULL){ // NULL if the particle could not be added (see reb_simulation_add)
+			node->pt--;
+		}
 	}
 	return node;
 }
